@@ -56,6 +56,21 @@ macro_rules! big {
 
 pub struct WLoader;
 
+/// A plain-data value whose size (180 bytes) is not a multiple of 8 and whose alignment is 4: every cell holds the
+/// version. (Entries are rewritten by swapping bytes: whatever unit the swap uses, the tail belongs to the value.)
+#[derive(Clone, Copy)]
+pub struct Odd(pub [u32; 45]);
+impl Loader<Odd> for WLoader {
+    fn load(content: Cow<[u8]>, _: &str) -> Result<Odd, BoxedError> {
+        let v: u64 = std::str::from_utf8(&content)?.trim().parse()?;
+        Ok(Odd([v as u32; 45]))
+    }
+}
+impl Asset for Odd {
+    const EXTENSION: &'static str = "od";
+    type Loader = WLoader;
+}
+
 /// Versions from here on belong to the first-load race: their loaders wait (bounded) for each other,
 /// so that every racer is past its cache miss before any of them inserts.
 const RACE_BASE: u64 = 1 << 40;
@@ -120,6 +135,50 @@ pub fn late_registration() -> Option<(String, String)> {
                 "reloaded-without-notification".into(),
                 format!("a change of z was notified and examined, then the cache was cleared and z loaded again: nothing was notified since, yet hot_reload reloaded z (last_reload_id {:?})", z.last_reload_id()),
             ));
+        }
+    }
+    // An asset is registered right behind a request that examines the notification about its file (the reloader
+    // dawdles when it wakes up, so that the registration is queued behind the request): the asset is reloaded by
+    // the next hot_reload call, not in between - once the caller is back and nobody calls, nothing moves.
+    {
+        src.tree().put("q", "w", b"5".to_vec(), Variant::Buffer);
+        std::thread::sleep(std::time::Duration::from_millis(2));
+        let woke = Arc::new(AtomicBool::new(false));
+        let w2 = woke.clone();
+        verif::set_schedule_hook(Some(Arc::new(move |point| {
+            if point == 0 {
+                w2.store(true, SeqCst);
+                std::thread::sleep(std::time::Duration::from_millis(5));
+            }
+        })));
+        let moved = std::thread::scope(|s| {
+            let a = s.spawn(|| cache.hot_reload());
+            let t = std::time::Instant::now();
+            while !woke.load(SeqCst) && t.elapsed().as_millis() < 100 {
+                std::hint::spin_loop();
+            }
+            let q = cache.load::<W8>("q").expect("load q");
+            src.tree().put("q", "w", b"9".to_vec(), Variant::Buffer);
+            src.send(&OwnedEntry::File("q".into(), "w".into()));
+            let _ = a.join();
+            verif::set_schedule_hook(None);
+            // the only hot_reload call has returned: whatever q is now, it stays
+            let (v1, id1) = (validate(q.read().words()), q.last_reload_id());
+            std::thread::sleep(std::time::Duration::from_millis(6));
+            let (v2, id2) = (validate(q.read().words()), q.last_reload_id());
+            cache.hot_reload();
+            let v3 = validate(q.read().words());
+            if v1 != v2 || id1 != id2 {
+                Some(format!("q was loaded and its change notified while a hot_reload request was being served; after that call had returned, and with nobody calling hot_reload, q went from ({v1:?}, {id1:?}) to ({v2:?}, {id2:?})"))
+            } else if v3 != Ok(9) {
+                Some(format!("q's change was notified before this hot_reload call: after it q reads {v3:?}"))
+            } else {
+                None
+            }
+        });
+        verif::set_schedule_hook(None);
+        if let Some(what) = moved {
+            return Some(("changed-outside-hot-reload".into(), what));
         }
     }
     let _g = cache.load::<W8>("g").expect("load g");
@@ -193,6 +252,53 @@ pub fn late_registration() -> Option<(String, String)> {
         return Some((
             "reloaded-without-notification".into(),
             format!("x was loaded for the first time after the notification about its file had been sent (and examined by a request, with a second request queued behind): nothing was notified since, yet x was reloaded (last_reload_id {:?}, reloaded_global {})", x_state.0, x_state.1),
+        ));
+    }
+    None
+}
+
+/// Three requests in a row (the first two made slow by a slow loader) while a file that nobody uses yet is
+/// notified twice - once before and once after an asset reading it is loaded behind the last request. The second
+/// notification came after that load: the next hot_reload call applies it. Used by C05.
+pub fn notified_twice_behind_queued_requests() -> Option<(String, String)> {
+    let src = MemSource::new(true);
+    src.tree().put("g", "w", b"0".to_vec(), Variant::Buffer);
+    src.tree().put("f", "w", b"5".to_vec(), Variant::Buffer);
+    let cache = AssetCache::with_source(src.handle());
+    let _g = cache.load::<W8>("g").expect("load g");
+    std::thread::sleep(std::time::Duration::from_millis(2));
+    let wait_slow = || {
+        let t = std::time::Instant::now();
+        while !SLOW_STARTED.load(SeqCst) && t.elapsed().as_millis() < 100 {
+            std::hint::spin_loop();
+        }
+        SLOW_STARTED.load(SeqCst)
+    };
+    SLOW_STARTED.store(false, SeqCst);
+    src.tree().put("g", "w", (SLOW_BASE + 1).to_string().into_bytes(), Variant::Buffer);
+    src.send(&OwnedEntry::File("g".into(), "w".into()));
+    let got = std::thread::scope(|s| {
+        let t0 = s.spawn(|| cache.hot_reload());
+        let in_first = wait_slow();
+        SLOW_STARTED.store(false, SeqCst);
+        let t1 = s.spawn(|| cache.hot_reload());
+        let t2 = s.spawn(|| cache.hot_reload());
+        std::thread::sleep(std::time::Duration::from_millis(1));
+        src.tree().put("g", "w", (SLOW_BASE + 2).to_string().into_bytes(), Variant::Buffer);
+        src.send(&OwnedEntry::File("g".into(), "w".into()));
+        src.send(&OwnedEntry::File("f".into(), "w".into()));
+        let in_second = wait_slow();
+        let y = cache.load::<W8>("f").expect("load f");
+        src.tree().put("f", "w", b"9".to_vec(), Variant::Buffer);
+        src.send(&OwnedEntry::File("f".into(), "w".into()));
+        let _ = (t0.join(), t1.join(), t2.join());
+        cache.hot_reload();
+        (validate(y.read().words()), in_first && in_second)
+    });
+    if got.0 != Ok(9) {
+        return Some((
+            "reload-lost".into(),
+            format!("f was loaded (reading version 5), then changed to version 9 and notified, then hot_reload was called: f reads {:?} (three requests were queued meanwhile and f had been notified once before it was loaded; windows hit: {})", got.0, got.1),
         ));
     }
     None
@@ -582,6 +688,8 @@ fn run_sized<T: Words + Asset>(c: &Case, out: &mut Outcome) {
         }
     }
     let h = cache.load::<T>("big").expect("load big");
+    src.tree().put("odd", "od", b"0".to_vec(), Variant::Buffer);
+    let odd = cache.load::<Odd>("odd").expect("load odd");
     let sh = Shared { stop: AtomicBool::new(false), started: AtomicU64::new(0), finished: AtomicU64::new(0), err: Mutex::new(None), overlaps: AtomicU64::new(0) };
     let bracket = c.readers.iter().any(|s| matches!(s, Style::Bracket));
     // the second cache (dropped before `cache`, after its last hot_reload call returned)
@@ -638,6 +746,8 @@ fn run_sized<T: Words + Asset>(c: &Case, out: &mut Outcome) {
                 break;
             }
             let before = h.last_reload_id();
+            src.tree().put("odd", "od", i.to_string().into_bytes(), Variant::Buffer);
+            src.send(&OwnedEntry::File("odd".into(), "od".into()));
             src.tree().put("big", "w", i.to_string().into_bytes(), Variant::Buffer);
             src.send(&OwnedEntry::File("big".into(), "w".into()));
             let mut rounds = 0;
@@ -661,6 +771,12 @@ fn run_sized<T: Words + Asset>(c: &Case, out: &mut Outcome) {
                 }
             }
             // hot_reload returned: the reload it triggered is finished, the value is the new one
+            let cells = odd.read().0;
+            if cells.iter().any(|c| *c != i as u32) {
+                let first_bad = cells.iter().position(|c| *c != i as u32).unwrap_or(0);
+                sh.fail("torn-or-unpinned-read", format!("a 180-byte value (45 u32 cells) was rewritten to version {i}: cell 0 reads {}, cell {first_bad} reads {}", cells[0], cells[first_bad]));
+                break;
+            }
             match validate(h.read().words()) {
                 Ok(v) if v == i => {}
                 other => {
@@ -693,7 +809,7 @@ impl Prop for C07 {
     }
 
     fn rule(&self) -> String {
-        "cases = (value size 64 B / 4 KiB / 64 KiB of self-checking words, 1..7 reader threads of styles {short read, guard held across k yields, mapped guard, try_map guard, copied(), polling watcher, in-flight bracket sampler}, \
+        "cases = (value size 64 B / 4 KiB / 64 KiB of self-checking words (plus a 180-byte value of 45 u32 cells rewritten along with it), 1..7 reader threads of styles {short read, guard held across k yields, mapped guard, try_map guard, copied(), polling watcher, in-flight bracket sampler}, \
          30..2000 reloads driven by one writer thread: write version i, notify, hot_reload until applied; in a third of the cases 2..5 threads first race for the first load of one asset (rendezvous inside the loader, each reading different bytes) before any hot_reload call; \
          in a third of the cases a compound of a SECOND hot-reloaded cache reads the handle with a guard held over 1..4 yields and is reloaded continuously, so that this read runs on the other cache's reloader thread while the first cache's reloader rewrites the value). Oracle: \
          in a fifth of the cases 6..14 threads then call hot_reload under the read side of a gate while notifications keep coming and the loader takes 100..700 us: whenever an observer holds the write side (no thread inside hot_reload) value and id must not move; \
